@@ -6,9 +6,12 @@ package multiboot
 import (
 	"encoding/binary"
 	"fmt"
+	"os"
 	"runtime/debug"
 	"strings"
+	"sync/atomic"
 	"testing"
+	"time"
 
 	"github.com/ProjectSerenity/firefly/kernel/zzverif/vlib"
 )
@@ -751,6 +754,79 @@ func (b *c10Block) summary() string {
 }
 
 // ---------------------------------------------------------------------------
+// Stall watchdog. The decoder's loops advance by sizes read from the block; a
+// broken scan can stop advancing and spin for ever, which no panic handler
+// sees. The watchdog does not decide anything: when a single call (micro-
+// seconds of work) has not returned after c10StallLimit it ends the process
+// with a "fatal error:" line. vcheck attributes the death to the case line
+// flushed last, re-runs that case alone in a fresh process and reports it only
+// if it fails to complete again (a stall that does not repeat is counted as
+// inconclusive by vcheck).
+
+const c10StallLimit = 3 * time.Second
+
+var (
+	c10CallStart int64        // UnixNano of the start of the call in progress, 0 = none
+	c10CallName  atomic.Value // string
+)
+
+// Stalls are tallied in vcheck's private work directory (one line each). A
+// full run that finds c10MaxStalls of them already recorded by this
+// invocation stops generating cases: every one of them is being re-run alone
+// by vcheck, which decides; going on would only spend 2x the stall limit per
+// further hang. Stopping early is reported as inconclusive for the remainder.
+const c10MaxStalls = 4
+
+func c10StallFile() string {
+	if d := os.Getenv("VERIF_WORK"); d != "" {
+		return d + "/c10-stalls"
+	}
+	return ""
+}
+
+func c10NoteStall() {
+	if p := c10StallFile(); p != "" {
+		if f, err := os.OpenFile(p, os.O_CREATE|os.O_WRONLY|os.O_APPEND, 0644); err == nil {
+			f.WriteString("stall\n")
+			f.Close()
+		}
+	}
+}
+
+func c10StallsSoFar() int {
+	if p := c10StallFile(); p != "" {
+		if b, err := os.ReadFile(p); err == nil {
+			return strings.Count(string(b), "\n")
+		}
+	}
+	return 0
+}
+
+func c10StartWatchdog(full bool) (stop func()) {
+	done := make(chan struct{})
+	go func() {
+		tick := time.NewTicker(200 * time.Millisecond)
+		defer tick.Stop()
+		for {
+			select {
+			case <-done:
+				return
+			case <-tick.C:
+				if st := atomic.LoadInt64(&c10CallStart); st != 0 && time.Since(time.Unix(0, st)) > c10StallLimit {
+					name, _ := c10CallName.Load().(string)
+					fmt.Printf("fatal error: C10 watchdog: hang in %s\n", name)
+					if full {
+						c10NoteStall()
+					}
+					os.Exit(3)
+				}
+			}
+		}
+	}()
+	return func() { close(done) }
+}
+
+// ---------------------------------------------------------------------------
 // Placement and monitored calls.
 
 type c10Ctx struct {
@@ -837,7 +913,10 @@ func (x *c10Ctx) call(fn string, f func()) bool {
 	cmdLineKV = nil
 	SetInfoPtr(x.blkAddr)
 	c10Count(x.run, "calls_"+fn, 1)
+	c10CallName.Store(fn)
+	atomic.StoreInt64(&c10CallStart, time.Now().UnixNano())
 	pv, st := vlib.Protect(f)
+	atomic.StoreInt64(&c10CallStart, 0)
 	cmdLineKV = nil
 	if pv == nil {
 		return true
@@ -1186,6 +1265,7 @@ func TestVerifC10(t *testing.T) {
 	run.Assume("ELF-sections tag laid out as GRUB and the specification's multiboot2.h emit it (u32 num, u32 entsize=64, u32 shndx, Elf64_Shdr entries); sh_flags above bit 31 are zero (the visitor's flag type is 32 bits wide)")
 	run.Assume("command-line oracle: token without '=' ⇒ k→k, exactly one '=' ⇒ k→v (v may be empty); tokens with >=2 '=' or an empty key leave their key unconstrained; a key repeated in several tokens may carry any of its values; separators are space, tab, newline only; text is valid UTF-8 without Unicode space characters")
 	run.Assume("cmdLineKV (process-wide cache) is reset before every call; the block bytes are restored before every call because VisitMemRegions normalises types in place")
+	run.Assume("a call that has not returned after 3 s ends the child process; vcheck re-runs that case alone and reports a hang only if it fails to complete again (a stall that does not repeat is inconclusive); no other use of the clock")
 	run.Assume("reads outside the block that stay inside the same accessible page (before the block in the tail placement) are seen only through wrong results, not through a fault")
 
 	blk := vlib.MustArena(0, c10BlockArenaSize, false)
@@ -1193,7 +1273,16 @@ func TestVerifC10(t *testing.T) {
 	str := vlib.MustArena(0, c10StrArenaSize, false)
 	defer str.Free()
 	defer debug.SetPanicOnFault(debug.SetPanicOnFault(true))
+	defer c10StartWatchdog(run.To < 0)()
 	defer func(p uintptr) { infoData = p; cmdLineKV = nil }(infoData)
+
+	if run.To < 0 && c10StallsSoFar() >= c10MaxStalls {
+		run.Inconclusive(fmt.Sprintf("C10: %d calls of this invocation did not return within %v (each is re-run alone by vcheck, which reports it if it repeats); the remaining cases from index %d on were not run", c10StallsSoFar(), c10StallLimit, run.From))
+		return
+	}
+	run.Cases(run.N(12000, 1000000), func(c *vlib.Case) {
+		c10RunBlock(c, run, blk, str, c10GenBlock(c.R))
+	})
 
 	// Fixed regression inputs.
 	// 1: every boundary region type, entry_size 24, memory map directly before the end tag.
@@ -1230,10 +1319,6 @@ func TestVerifC10(t *testing.T) {
 			{typ: c10TMmap, kind: "mmap", mm: &c10Mmap{entrySize: 40, stopAt: 1, regions: []c10Region{{addr: 0, length: 0x9fc00, typ: 1, extra: make([]byte, 16)}, {addr: 0x9fc00, length: 0x400, typ: 2, extra: make([]byte, 16)}}}},
 			{typ: c10TMmap, kind: "mmap", mm: &c10Mmap{entrySize: 24, regions: []c10Region{{addr: 1 << 32, length: 1 << 30, typ: 3}}}},
 		}})
-	})
-
-	run.Cases(run.N(12000, 1000000), func(c *vlib.Case) {
-		c10RunBlock(c, run, blk, str, c10GenBlock(c.R))
 	})
 
 	if !run.Replay && run.From == 0 && run.To < 0 {
